@@ -9,6 +9,8 @@ from .iter_rules import *
 
 def run(chk, ctx):
     P = Prog(ctx["facts"])
+    from .iter_rules import plumbing_rule
+    plumbing_rule(chk, P, {"ParsedTestCase": ("virtual_signals",), "TestCase": ("signals", "expected_indices"), "DataRowIteratorTestData": ("signals", "expected_indices")})   # what the parser / the binding produced is what runs
     # "an additional 64-bit output ... its expected value is the entry in the column of that name": the expected
     # path reduces the entry to the signal's width, so at the virtual signals' width 64 the mask must be all ones
     from . import c07
